@@ -19,6 +19,15 @@ CHECKS = {
          "exploration over generated layerings and failing subsets, GOMAXPROCS varied", "holds only provoke", "4 C13"),
  "C14": ("exploration", "E2 trace monitor", "runtime monitoring: event-log oracle for the stop-tag rows; tag-less equivalence by validating against the tag-less row",
          "exploration over setter positions x failing subsets x policy", "", "4 C14"),
+ "C01": ("exploration", "E1 generator + reference interpreter", "runtime monitoring: differential reference-model monitor over generated expression trees executed by the real builder/engine (result map value and type, error nil-ness)",
+         "type-directed, boundary-biased generation; each rule's value compared with an independent interpreter of the reference semantics written from the property",
+         "trusts the reference interpreter in harness/gen (about 300 lines) and strconv for literal values; undefined cases (NaN, strict-only errors) are not generated", "4 C01"),
+ "C02": ("exploration", "E1 generator + reference interpreter", "runtime monitoring: executed-path trace (observer call at every basic block), final locals, host state and result of generated statement programs compared with the reference execution",
+         "exploration over statement trees; observer ids make the executed path itself the observation", "map-iteration-order-dependent programs are not generated (bag comparison for map loops)", "4 C02"),
+ "C03": ("exploration", "E1 generator + reference interpreter", "runtime monitoring: exhaustive source-kind x target conversion matrix plus random host-access programs; typed read-backs through observers and DeepEqual of the host state against the reference model",
+         "the matrix part enumerates a finite catalog completely in both tiers; the random part explores", "only stores the property promises are decided", "4 C03"),
+ "C08": ("exploration", "algebra histories", "runtime monitoring: sequential model-based histories on one RuleBuilder; after every operation the sort-model trace (version tags), result map and IsExist are compared with a map model",
+         "exploration over operation histories (full / incremental / removal / failing texts)", "stored description is read through the exported Kc field because no public accessor exists", "4 C08"),
  "C15": ("exploration", "E2 trace monitor", "runtime monitoring: rules sharing local names, readers-before-write must fault and writers must get their own value back, in every model, repeated calls and concurrent duplicates",
          "exploration", "a leak must change a returned value or let a reader succeed to be seen", "4 C15"),
 }
@@ -55,6 +64,8 @@ def main():
                   "baseline_off_cmd": "./baseline_off.sh", "source_commits": hooks_commits, "add_only": True},
         "engines": [
             {"name": "E2 trace monitor", "path": "harness/trace", "serves_properties": ["C04","C05","C11","C12","C13","C14","C15"], "kind_free_text": "observer-function event log + specification-table oracle over real engine/pool calls"},
+            {"name": "E1 generator + reference interpreter", "path": "harness/gen + harness/e1", "serves_properties": ["C01","C02","C03","C18"], "kind_free_text": "typed AST generator, printer and independent reference interpreter; differential monitor over real executions"},
+            {"name": "algebra histories", "path": "harness/algebra", "serves_properties": ["C08"], "kind_free_text": "model-based operation histories on a RuleBuilder"},
         ],
         "checks": checks,
         "not_applicable": na,
